@@ -469,8 +469,9 @@ def run_check(prop: str, tier: str) -> int:
         # violations only with a natively reproduced input; otherwise they are undecided.
         # (when the loops are the recorded ones, statement for statement in their headers, a failing invariant is a
         # change of behaviour inside the loop and counts like any other failing obligation)
-        inv_broken = res.get("loops_restructured") and any(
-            v["kind"] in ("inv-init", "inv-step") and v["status"] != solve.PROVED for v in res["verdicts"])
+        # (and when the loops of the function were restructured at all -- one replaced by a comprehension, split, merged --
+        # the remaining sidecar invariants were written for another proof: whatever fails then is undecided without input)
+        inv_broken = bool(res.get("loops_restructured"))
         for v in res["verdicts"]:
             solver_time += v["time_s"]
             if v["kind"] == "cover":
@@ -540,7 +541,7 @@ def run_check(prop: str, tier: str) -> int:
                     v = dict(v, reason=(v.get("reason") or "") + " [the files of this function are byte-identical to the baseline: "
                                        "a failing proof here is solver trouble, not a change of behaviour]")
                 undecided.append(f"{v['name']}: {v['status']} {v.get('reason', '')}"
-                                 + (" [a sidecar loop invariant of this function no longer holds]" if inv_broken else ""))
+                                 + (" [the loops of this function were restructured: its sidecar invariants belong to another proof]" if inv_broken else ""))
                 if os.environ.get("PYVC_DEBUG") and reps:
                     for r in reps:
                         print("  DEBUG-REPLAY", v["name"], json.dumps(r.get("native")), json.dumps(r.get("inputs"))[:600])
